@@ -268,8 +268,8 @@ func (r *Run) Finish() int {
 		fmt.Fprintln(os.Stderr, "cannot write evidence:", err)
 		return 2
 	}
-	fmt.Fprintf(os.Stderr, "[%s %s seed=%d] evaluations=%d distinct_nontrivial=%d violations=%d known=%v inconclusive=%v wall=%.1fs\n",
-		r.ID, r.Tier, r.Seed, r.Evals, len(r.distinct), len(r.viol), kh, r.Inconcl, time.Since(r.start).Seconds())
+	fmt.Fprintf(os.Stderr, "[%s %s seed=%d] evaluations=%d distinct_nontrivial=%d violations=%d known_findings_hit=%d inconclusive=%v wall=%.1fs\n",
+		r.ID, r.Tier, r.Seed, r.Evals, len(r.distinct), len(r.viol), len(kh), r.Inconcl, time.Since(r.start).Seconds())
 	if len(r.viol) > 0 {
 		return 1
 	}
